@@ -76,6 +76,15 @@ def mutants_of(fn: ast.AST):
         if isinstance(n, ast.Attribute) and n.attr in ('reference', 'query') and isinstance(n.ctx, ast.Load):
             other = 'query' if n.attr == 'reference' else 'reference'
             yield redo(lambda t: setattr(t, 'attr', other), f"L{n.lineno}: .{n.attr}->.{other}")
+        # glue code: transposed arguments, a sibling attribute (referenceX <-> queryX), a dropped call statement
+        if isinstance(n, ast.Call) and len(n.args) >= 2 and not any(isinstance(a, ast.Starred) for a in n.args[:2]):
+            yield redo(lambda t: t.args.__setitem__(slice(0, 2), [t.args[1], t.args[0]]), f"L{n.lineno}: first two arguments swapped")
+        if isinstance(n, ast.Attribute) and isinstance(n.ctx, ast.Load) and n.attr not in ('reference', 'query') and \
+                (n.attr.startswith('reference') or n.attr.startswith('query')):
+            other = ('query' + n.attr[len('reference'):]) if n.attr.startswith('reference') else ('reference' + n.attr[len('query'):])
+            yield redo(lambda t: setattr(t, 'attr', other), f"L{n.lineno}: .{n.attr}->.{other}")
+        if isinstance(n, ast.Expr) and isinstance(n.value, ast.Call):
+            yield redo(lambda t: setattr(t, 'value', ast.Constant(value=None)), f"L{n.lineno}: call statement dropped")
         if isinstance(n, ast.Name) and isinstance(n.ctx, ast.Load) and n.id in ('True', 'False'):
             pass
         if isinstance(n, ast.Constant) and isinstance(n.value, bool):
